@@ -103,6 +103,39 @@ func VerifRun_C17f() {
 			verifViolation("", "a file that no ignore rule of the current configuration matches shows no diagnostics")
 		}
 	}
+	if verifParam("BATCH") == 0 {
+		return
+	}
+	// all four files are rewritten on disk (git pull, formatter) and announced in ONE watched-files
+	// notification, in a solver-chosen rotation: the events about ignored files must not affect the others
+	rot := verifConcretize(verifRange("rotation", 0, len(c17fFiles)-1))
+	var evs []lsp.FileEvent
+	for k := range c17fFiles {
+		f := c17fFiles[(k+rot)%len(c17fFiles)]
+		verifVFSPut(root+"/"+f, []byte("local u = 1\nlocal w = 2\n"))
+		evs = append(evs, lsp.FileEvent{URI: lsp.DocumentURI("file://" + root + "/" + f), Type: lsp.Changed})
+	}
+	_ = l.WorkspaceChangeWatchedFiles(ctx, lsp.DidChangeWatchedFilesParams{Changes: evs})
+	verifReach("batch")
+	view2 := ""
+	for i, f := range c17fFiles {
+		v := c08view["file://"+root+"/"+f]
+		view2 += "[" + f + ": " + v + "]"
+		want := !c17fMatch[last][i] && !c17fMatch[lastErr][i]
+		two := false
+		for k := 0; k+1 < len(v); k++ {
+			if v[k] == ';' && k+2 < len(v) {
+				two = true // (at least two entries)
+			}
+		}
+		if want && !two {
+			verifViolation("", "after a batch of watched-file events a file that no ignore rule matches does not show the diagnostics of its new content")
+		}
+		if !want && v != "" {
+			verifViolation("", "after a batch of watched-file events a file matched by an ignore rule shows diagnostics")
+		}
+	}
+	verifObserve("view-after-batch", view2)
 }
 
 // Environment model (symbolic run only): the usage-statistics reporter (a UDP socket and a 120 s sleep
